@@ -191,6 +191,27 @@ def gen_fanin_spec(rng: random.Random) -> dict:
     return spec
 
 
+def gen_multicollect_spec(rng: random.Random) -> dict:
+    """fan-in into a multi-worker collecting step whose body calls collect_events on the SAME buffer two
+    to four times per invocation: one result tick then carries several AddCollectedEvent for one buffer.
+    At most one of them may schedule the re-run (C01: one CommandRunWorker per slot and tick).  Only the
+    worker-limit monitors are meaningful on this family (mon_c09 pairs one call with one tick)."""
+    n = rng.randint(3, 6)
+    nw = rng.randint(2, 3)
+    want = rng.randint(n + 2, n + 6)  # never completes early: every call keeps asking for the event
+    sends = [["send", 5, None, rng.choice([None, 1, 2])] for _ in range(n)]
+    start = {"name": "s00", "accepts": [0], "nw": 1, "retry": None, "script": sends + [["ret", "none"]]}
+    coll_script: list = []
+    if rng.random() < 0.85:
+        coll_script.append(["gate"])  # invocations overlap: snapshots go stale while they wait
+    coll_script.append(["collect", [5] * want, rng.choice([None, None, "b01"]), rng.choice([2, 3, 3, 4])])
+    coll_script.append(["ret", "none"])
+    coll = {"name": "s03", "accepts": [5], "nw": nw, "retry": None, "script": coll_script}
+    steps = [start, coll]
+    rng.shuffle(steps)
+    return {"steps": steps, "externals": []}
+
+
 def gen_retry_spec(rng: random.Random) -> dict:
     """failing steps with budgets, delays and catch_error handlers on one lineage"""
     n_fail = rng.randint(1, 3)
